@@ -51,45 +51,99 @@ package delegation
 // (`dat, _ := st.state.Get(..)`), so a read refused for gas exhaustion returns amount 0 / an empty list
 // with err == nil; once the gas store is exhausted every later Set fails, so no such value is written back.
 
-//@ assume func (*DelegationStore).GetValidatorAmount
+// Raw record layer: one read / one write of one amount under the key it is given (assumed: rests on C09's State
+// contracts and T-SER round-tripping of Amount). dlgRaw(st)[k] is the amount stored under key k of the prefix.
+//@ model dlgRaw(*DelegationStore) array[string]int
+//@ assume func (*DelegationStore).Get
+//@   modifies nothing
+//@   ensures amt != nil && fresh(amt)
+//@   ensures err == nil ==> big(amt) == dlgRaw(st)[str(key)]
+
+//@ assume func (*DelegationStore).Set
+//@   requires amt != nil
+//@   modifies dlgRaw(st)[str(key)], vHas(st.state), vVal(st.state)
+//@   ensures err == nil ==> dlgRaw(st)[str(key)] == old(big(amt))
+//@   ensures err != nil ==> dlgRaw(st)[str(key)] == old(dlgRaw(st))[str(key)]
+
+// Key formats of the four amount families (fmt.Sprintf with constant formats, modelled by the engine: T-FMT).
+//@ ghost func dlgVKey(v string) string = "_t_" + addrStr(v)
+//@ ghost func dlgVDKey(v string, d string) string = (("_e_" + addrStr(v)) + "_") + addrStr(d)
+//@ ghost func dlgDEKey(d string) string = "_d_e_" + addrStr(d)
+//@ ghost func dlgDBKey(d string) string = "_d_b_" + addrStr(d)
+
+// The eight typed accessors are VERIFIED for what their bodies do at the raw layer (`claims`: checked on the body, not handed to callers: the record is read /
+// written under exactly the key of its family, the amount passes through unchanged, no other raw record is written,
+// errors are propagated) and TRUSTED (`trusts`, `trustframe`) only for the identification of the typed ledgers with
+// those raw records (dlgV(st)[v] is the record under dlgVKey(v), ...; needs injectivity of the key formats and
+// disjointness of the families, a fact about the spec functions above, not about the code).
+
+//@ func (*DelegationStore).GetValidatorAmount
+//@   requires st != nil
 //@   modifies nothing
 //@   ensures amount != nil && fresh(amount)
-//@   ensures err == nil ==> big(amount) == dlgV(st)[str(validatorAddress)]
+//@   trusts err == nil ==> big(amount) == dlgV(st)[str(validatorAddress)]
+//@   claims err == nil ==> big(amount) == dlgRaw(st)[dlgVKey(str(validatorAddress))]                        // C11.key-format
 
-//@ assume func (*DelegationStore).SetValidatorAmount
+//@ func (*DelegationStore).SetValidatorAmount
+//@   requires st != nil
 //@   modifies dlgV(st)[str(validatorAddress)], vHas(st.state), vVal(st.state)
-//@   ensures err == nil ==> dlgV(st)[str(validatorAddress)] == amt
-//@   ensures err != nil ==> dlgV(st)[str(validatorAddress)] == old(dlgV(st))[str(validatorAddress)]
+//@   trustframe
+//@   trusts err == nil ==> dlgV(st)[str(validatorAddress)] == amt
+//@   trusts err != nil ==> dlgV(st)[str(validatorAddress)] == old(dlgV(st))[str(validatorAddress)]
+//@   claims err == nil ==> dlgRaw(st)[dlgVKey(str(validatorAddress))] == amt                                // C11.key-format
+//@   claims err != nil ==> dlgRaw(st)[dlgVKey(str(validatorAddress))] == old(dlgRaw(st))[dlgVKey(str(validatorAddress))]   // C11.key-format
+//@   claims forall k string :: k != dlgVKey(str(validatorAddress)) ==> dlgRaw(st)[k] == old(dlgRaw(st))[k]  // C11.key-format
 
-//@ assume func (*DelegationStore).GetValidatorDelegationAmount
+//@ func (*DelegationStore).GetValidatorDelegationAmount
+//@   requires st != nil
 //@   modifies nothing
 //@   ensures amount != nil && fresh(amount)
-//@   ensures err == nil ==> big(amount) == dlgVD(st)[str(validatorAddress)][str(delegatorAddress)]
+//@   trusts err == nil ==> big(amount) == dlgVD(st)[str(validatorAddress)][str(delegatorAddress)]
+//@   claims err == nil ==> big(amount) == dlgRaw(st)[dlgVDKey(str(validatorAddress), str(delegatorAddress))]   // C11.key-format
 
-//@ assume func (*DelegationStore).SetValidatorDelegationAmount
+//@ func (*DelegationStore).SetValidatorDelegationAmount
+//@   requires st != nil
 //@   modifies dlgVD(st)[str(validatorAddress)], vHas(st.state), vVal(st.state)
-//@   ensures err == nil ==> dlgVD(st)[str(validatorAddress)] == old(dlgVD(st))[str(validatorAddress)][str(delegatorAddress) := amt]
-//@   ensures err != nil ==> dlgVD(st)[str(validatorAddress)] == old(dlgVD(st))[str(validatorAddress)]
+//@   trustframe
+//@   trusts err == nil ==> dlgVD(st)[str(validatorAddress)] == old(dlgVD(st))[str(validatorAddress)][str(delegatorAddress) := amt]
+//@   trusts err != nil ==> dlgVD(st)[str(validatorAddress)] == old(dlgVD(st))[str(validatorAddress)]
+//@   claims err == nil ==> dlgRaw(st)[dlgVDKey(str(validatorAddress), str(delegatorAddress))] == amt        // C11.key-format
+//@   claims err != nil ==> dlgRaw(st)[dlgVDKey(str(validatorAddress), str(delegatorAddress))] == old(dlgRaw(st))[dlgVDKey(str(validatorAddress), str(delegatorAddress))]   // C11.key-format
+//@   claims forall k string :: k != dlgVDKey(str(validatorAddress), str(delegatorAddress)) ==> dlgRaw(st)[k] == old(dlgRaw(st))[k]   // C11.key-format
 
-//@ assume func (*DelegationStore).GetDelegatorEffectiveAmount
+//@ func (*DelegationStore).GetDelegatorEffectiveAmount
+//@   requires st != nil
 //@   modifies nothing
 //@   ensures amount != nil && fresh(amount)
-//@   ensures err == nil ==> big(amount) == dlgDE(st)[str(delegatorAddress)]
+//@   trusts err == nil ==> big(amount) == dlgDE(st)[str(delegatorAddress)]
+//@   claims err == nil ==> big(amount) == dlgRaw(st)[dlgDEKey(str(delegatorAddress))]                       // C11.key-format
 
-//@ assume func (*DelegationStore).SetDelegatorEffectiveAmount
+//@ func (*DelegationStore).SetDelegatorEffectiveAmount
+//@   requires st != nil
 //@   modifies dlgDE(st)[str(delegatorAddress)], vHas(st.state), vVal(st.state)
-//@   ensures err == nil ==> dlgDE(st)[str(delegatorAddress)] == amt
-//@   ensures err != nil ==> dlgDE(st)[str(delegatorAddress)] == old(dlgDE(st))[str(delegatorAddress)]
+//@   trustframe
+//@   trusts err == nil ==> dlgDE(st)[str(delegatorAddress)] == amt
+//@   trusts err != nil ==> dlgDE(st)[str(delegatorAddress)] == old(dlgDE(st))[str(delegatorAddress)]
+//@   claims err == nil ==> dlgRaw(st)[dlgDEKey(str(delegatorAddress))] == amt                               // C11.key-format
+//@   claims err != nil ==> dlgRaw(st)[dlgDEKey(str(delegatorAddress))] == old(dlgRaw(st))[dlgDEKey(str(delegatorAddress))]   // C11.key-format
+//@   claims forall k string :: k != dlgDEKey(str(delegatorAddress)) ==> dlgRaw(st)[k] == old(dlgRaw(st))[k]  // C11.key-format
 
-//@ assume func (*DelegationStore).GetDelegatorBoundedAmount
+//@ func (*DelegationStore).GetDelegatorBoundedAmount
+//@   requires st != nil
 //@   modifies nothing
 //@   ensures amount != nil && fresh(amount)
-//@   ensures err == nil ==> big(amount) == dlgDB(st)[str(delegatorAddress)]
+//@   trusts err == nil ==> big(amount) == dlgDB(st)[str(delegatorAddress)]
+//@   claims err == nil ==> big(amount) == dlgRaw(st)[dlgDBKey(str(delegatorAddress))]                       // C11.key-format
 
-//@ assume func (*DelegationStore).SetDelegatorBoundedAmount
+//@ func (*DelegationStore).SetDelegatorBoundedAmount
+//@   requires st != nil
 //@   modifies dlgDB(st)[str(delegatorAddress)], vHas(st.state), vVal(st.state)
-//@   ensures err == nil ==> dlgDB(st)[str(delegatorAddress)] == amt
-//@   ensures err != nil ==> dlgDB(st)[str(delegatorAddress)] == old(dlgDB(st))[str(delegatorAddress)]
+//@   trustframe
+//@   trusts err == nil ==> dlgDB(st)[str(delegatorAddress)] == amt
+//@   trusts err != nil ==> dlgDB(st)[str(delegatorAddress)] == old(dlgDB(st))[str(delegatorAddress)]
+//@   claims err == nil ==> dlgRaw(st)[dlgDBKey(str(delegatorAddress))] == amt                               // C11.key-format
+//@   claims err != nil ==> dlgRaw(st)[dlgDBKey(str(delegatorAddress))] == old(dlgRaw(st))[dlgDBKey(str(delegatorAddress))]   // C11.key-format
+//@   claims forall k string :: k != dlgDBKey(str(delegatorAddress)) ==> dlgRaw(st)[k] == old(dlgRaw(st))[k]  // C11.key-format
 
 // The maturing list. SetMatureAmounts sorts the list by address before storing it; every reader only
 // adds up amounts per address, so the sequence model ignores that permutation (assumed with the rest).
